@@ -8,12 +8,15 @@
   and for infinite generators agreement on every finite prefix (equality at every `N`).
 
   * `C01_partial` (= `compile_correct_partial`): PROVED for every body inside `InFragment` - simple
-    statements, blocks, if / else-if chains, three-clause / condition-only / infinite for loops with
-    yields anywhere (initialiser, body, post), break, continue, return - all nestings, all `ρ`, `N`, stores.
-    Outside the proved fragment: switch, fallthrough (covered by correspondences K4/K6 only).
-  * `C01_full` is FALSE of the tree under verification: `C01_cex_continue_yielding_post` (finding D6) is a
-    kernel-checked counterexample, replayed on the real compiler by the check.  Finding D7 (break inside
-    a yielding switch) is outside the proved fragment and is demonstrated by the replay only.
+    statements, blocks, if / else-if chains, expression switches (tagged or tag-less, with or without an
+    init statement, yields in any clause), three-clause / condition-only / infinite for loops with yields
+    anywhere (initialiser, body, post), break, continue, return - all nestings, all `ρ`, `N`, stores.
+    The guard excludes exactly: `fallthrough`, a yield in an if initialiser (both rejected by the compiler),
+    `continue` targeting a loop whose post statement yields (finding D6) and `break` targeting a switch that
+    contains a yield (finding D7).
+  * `C01_full` is FALSE of the tree under verification: `C01_cex_continue_yielding_post` (finding D6) and
+    `C01_cex_break_in_yielding_switch` (finding D7) are kernel-checked counterexamples, replayed on the
+    real compiler by the check.
 -/
 import GoCo.Proofs.CompileCorrect
 import GoCo.Compile.VM
@@ -63,6 +66,22 @@ def demo : Stmts :=
 example : InFragment demo = true := by decide
 example : (compile currentQuirks demo).toBool = true := by decide
 
+/-- `switch A(1); T(2) { case 1: Yield(3); if C(4) { Yield(V(5)) }; case 2: for C(6) { Yield(7); break }; default: A(8) };
+     switch { case 9: continue-free: A(10); break }; Yield(11); return nil`
+    (the second switch has no yield, so its `break` is inside the guard) -/
+def demoSwitch : Stmts :=
+  .cons (.switch (some (.act 1)) (some ⟨2, []⟩)
+    (.cons false [1] (.cons (.simple (.yield ⟨true, 3⟩))
+        (.cons (.ifs none ⟨4, []⟩ (.cons (.simple (.yield ⟨false, 5⟩)) .nil) .none) .nil))
+    (.cons false [2] (.cons (.for_ none (some ⟨6, []⟩) none
+        (.cons (.simple (.yield ⟨true, 7⟩)) (.cons .brk .nil))) .nil)
+    (.cons true [] (.cons (.simple (.act 8)) .nil) .nil))))
+  (.cons (.switch none none (.cons false [9] (.cons (.simple (.act 10)) (.cons .brk .nil)) .nil))
+  (.cons (.simple (.yield ⟨true, 11⟩)) (.cons .ret .nil)))
+
+example : InFragment demoSwitch = true := by decide
+example : (compile currentQuirks demoSwitch).toBool = true := by decide
+
 /-! ### the full statement fails on the tree under verification (finding D6) -/
 
 /-- an interpretation over a step counter: conditions are true while fewer than two were evaluated -/
@@ -101,6 +120,32 @@ theorem cexD6_compiles : compile currentQuirks cexD6 = .ok (.cons (.rete (.start
 theorem C01_cex_continue_yielding_post : ¬ C01_full := by
   intro h
   have := h Nat Unit ρ0 5 cexD6 _ cexD6_compiles cexD6Out rfl 0
+  have h2 := congrArg (takeYields 6) this
+  revert h2
+  decide
+
+/-! ### finding D7: `break` after a yield inside a yielding switch leaves the enclosing loop -/
+
+/-- `for C(1) { switch T(1) { case 0: Yield(1); break }; Yield(9) }; return`
+    with the tag always 0: the source delivers 1 9 1 9 …, the compiled code 1 and stops -/
+def cexD7 : Stmts :=
+  .cons (.for_ none (some ⟨1, []⟩) none
+    (.cons (.switch none (some ⟨1, []⟩)
+        (.cons false [0] (.cons (.simple (.yield ⟨true, 1⟩)) (.cons .brk .nil)) .nil))
+      (.cons (.simple (.yield ⟨true, 9⟩)) .nil))) (.cons .ret .nil)
+
+example : Supported cexD7 = false := by decide
+
+/-- what the compiler model produces for `cexD7` (computed, not written out) -/
+def outD7 : Stmts := match compile currentQuirks cexD7 with | .ok t => t | .error _ => .nil
+def eD7 : SExp := match outD7 with | .cons (.rete (.start e)) .nil => e | _ => .sig .normal
+
+theorem cexD7_compiles : compile currentQuirks cexD7 = .ok outD7 := rfl
+theorem outD7_shape : outD7 = .cons (.rete (.start eD7)) .nil := rfl
+
+theorem C01_cex_break_in_yielding_switch : ¬ C01_full := by
+  intro h
+  have := h Nat Unit ρ0 5 cexD7 outD7 cexD7_compiles eD7 outD7_shape 0
   have h2 := congrArg (takeYields 6) this
   revert h2
   decide
